@@ -141,6 +141,9 @@ func init() {
 		},
 		build: func(dir string, l layT, sender bool) {
 			t := trace.V17stOpen(dir, traceIdx(l), tsBase, sender)
+			if sender {
+				t.SkipPartIDs(senderPartIDSkip(l))
+			}
 			t.Write(traceSpans(l, sender))
 			t.Flush()
 			t.Close()
